@@ -105,6 +105,10 @@ func configsFor(part string, thorough bool) []*xcfg {
 				Script: []string{"T1", "H1", "P1", "T2", "H2", "P2", "H2", "R1", "H1", "R4", "H1", "H1"}},
 			{Name: "reads-5v-partitioned-dev", Voters: []uint64{1, 2, 3, 4, 5}, Fifo: true, MaxDev: pick(1, 2), MaxTerm: 6, MaxIndex: 10, Reads: pick(0, 1), Partitions: 1, Heartbeats: pick(1, 2), Dups: pick(0, 1),
 				Script: []string{"T1", "P1", "T3", "P3", "H3", "R1", "H1", "R2", "H1", "H1"}},
+			{Name: "reads-5v-partial-acks-then-deposed-dev", Voters: []uint64{1, 2, 3, 4, 5}, Fifo: true, MaxDev: pick(2, 2), MaxTerm: 6, MaxIndex: 10, Heartbeats: 1, Drops: 1, Dups: pick(0, 1), Reads: pick(0, 1),
+				// a first read collects a partial set of confirmations ({1,3} reachable), then the
+				// leader is cut off with 2 while {3,4,5} elect 3 and commit; a second read at 1
+				Script: []string{"T1", "H1", "P1", "H1", "M5", "R1", "H1", "M3", "T3", "H3", "P3", "H3", "R1", "H1", "R2", "H1"}},
 			{Name: "reads-nonvoting-dev", Voters: v3, NonVotings: []uint64{4}, Fifo: true, MaxDev: pick(2, 3), MaxTerm: 5, MaxIndex: 8, Reads: 2, Timeouts: 1, Proposals: 1, Heartbeats: 1, Dups: 1, Drops: 2,
 				Script: []string{"T1", "H1", "P1", "R4", "H1", "R4", "R1"}},
 			{Name: "reads-newleader-dev", Voters: v3, Fifo: true, MaxDev: pick(2, 3), MaxTerm: 6, MaxIndex: 9, Reads: 2, Timeouts: 1, Proposals: 1, Heartbeats: 1, Drops: 3,
